@@ -390,7 +390,9 @@ public:
     g_tick.bannerLen = 64;
     std::vector<std::string> argv = {"hextb", "prog.bin", "+verilator+seed+" + std::to_string(seed), "--max-cycles", std::to_string(watchdog)};
     ToolOutcome t;
+    sim::simclock::activate(1000000000ull, 4242);
     t.t = sim::runTool(hextb_main, argv);
+    sim::simclock::deactivate();
     g_tick.active = false;
     t.hung = g_tick.hung;
     collect(t);
@@ -406,6 +408,7 @@ public:
     ss.attach(v.input);
     g_tick = TickState();
     ToolOutcome t;
+    sim::simclock::activate(1000000000ull, 4242);
     t.t = sim::runTrapped([&]() -> int {
       const std::unique_ptr<VerilatedContext> contextp{new VerilatedContext};
       contextp->debug(0);
@@ -448,6 +451,7 @@ public:
       }
       return run(contextp, top, false, watchdog);
     });
+    sim::simclock::deactivate();
     g_tick.active = false;
     t.hung = g_tick.hung;
     collect(t);
@@ -462,7 +466,9 @@ public:
     ss.attach(v.input);
     std::vector<std::string> argv = {"hexsim", "prog.bin", "--max-cycles", std::to_string(watchdog)};
     ToolOutcome t;
+    sim::simclock::activate(1000000000ull, 4242);
     t.t = sim::runTool(hexsim_main, argv);
+    sim::simclock::deactivate();
     t.out = ss.out.data; t.err = ss.err.data; t.consumed = ss.in.consumed();
     for (int k = 0; k < 8; k++) { std::string n = "simout" + std::to_string(k); if (sim::fs::exists(n)) t.files[n] = sim::fs::get(n); }
     ss.detach();
